@@ -66,7 +66,7 @@ for (n, m, multi, tier) in ((3, 1, False, 'deep'), (2, 2, True, 'deep'), (6, 2, 
 RLS = {'one_small': ([(1, 1)], 1, False), 'two_small': ([(1, 1), (1, 2)], 1, True), 'one_at_any': ([(2, 3)], 1, True), 'empty': ([], 1, True)}
 for name, (units, sw, trail) in RLS.items():
     for kind, kn in enumerate(('run_iter', 'one_iter', 'zero_iter', 'iter')):
-        q = name == 'one_small' and kn in ('run_iter',)
+        q = False   # RL iterator drivers: deep tier (symbolic nth() loops exceed 12 GB); plain sequences are in C03
         call = 'c10::rl(&[%s], %d, %s, %d, %d)' % (', '.join('(%d, %d)' % u for u in units), sw, 'true' if trail else 'false', 2 if q else 4, kind)
         inst(P, 'c10_rl_%s_%s' % (name, kn), call, tier='quick' if q else 'deep', unwind=10, unwindset=merged(dict(rl_uw(units), **{r'advance_by|advance_back_by|try_fold|try_rfold|::nth$': 8 * len(units) + 4}), 4),
              stubs=['simple_sds::rl_vector::index::SampleIndex::new => stubs::sample_index_new_contract'], cap=1200, cap_thorough=3600, mem=12 if q else 28, weight=60,
